@@ -35,6 +35,10 @@ pub enum Act {
     Onboard { number: u64, dl_off: u64 },
     /// declare faults with a wrong partition index (a batch entry that must not corrupt anything)
     DeclareFaultsWrongPartition(Vec<u64>),
+    /// pre-commit a committed-capacity sector (locks a pre-commit deposit)
+    PreCommit(u64),
+    /// prove-commit a pre-committed sector (deposit released, pledge locked); bad = invalid proof
+    ProveCommit(u64, bool),
     /// a stranger reports a consensus fault committed by the miner at the previous epoch
     ReportFault,
     RepayDebt,
@@ -42,6 +46,8 @@ pub enum Act {
     Withdraw,
     /// block reward carrying a gas penalty
     AwardPenalty,
+    /// the owner sends the miner a small amount (plain transfer)
+    TopUp,
 }
 
 #[derive(Clone, Debug, Serialize, PartialEq, Eq)]
@@ -64,6 +70,8 @@ pub struct LifeM {
     /// sector numbers ever successfully committed (C04: allocated at most once)
     pub ever: BTreeSet<u64>,
     pub frozen: bool,
+    /// deadline -> epoch at which the window of an accepted bad-proof PoSt closes (not yet disputed)
+    pub bad_posts: BTreeMap<u64, i64>,
 }
 
 #[derive(Clone, Copy, Debug, Default)]
@@ -87,6 +95,9 @@ pub struct LifeCfg {
     /// Some(margin): the subject miner owns nothing but its vesting creation deposit + margin
     pub poor: Option<TokenAmount>,
     pub money_devs: bool,
+    pub precommits: bool,
+    /// horizon in epochs (overrides `periods` when set)
+    pub horizon: Option<i64>,
 }
 
 pub struct W {
@@ -495,8 +506,22 @@ impl Life {
         };
         match name {
             // {1,2} and {3} in two partitions of one deadline
-            "one-deadline" | "one-deadline-aged" => {
+            "one-deadline" | "one-deadline-aged" | "one-deadline-aged-debt" | "one-deadline-aged-f12" => {
                 commit(&[1, 2, 3], d0, now + 80);
+            }
+            // proven sectors whose latest PoSt carried an invalid proof; its deadline has just closed
+            // (the dispute window is open)
+            "bad-post-closed" | "bad-post-closed-debt" => {
+                commit(&[1, 2, 3], d0, now + 300);
+            }
+            // same, but a third sector lives in another deadline (the miner keeps other power)
+            "bad-post-closed-2dl" => {
+                commit(&[1, 2], d0, now + 300);
+                commit(&[3], (d0 + 1) % 4, now + 300);
+            }
+            // long-lived sectors that have been faulty for a period (fault time-out inside the horizon)
+            "long-faulty" | "long-faulty-debt" => {
+                commit(&[1, 2, 3], d0, now + 300);
             }
             // {1,2} in d0, {3} in the next deadline, different expirations
             "two-deadlines" | "two-deadlines-aged" => {
@@ -513,12 +538,46 @@ impl Life {
             sectors: ever.iter().map(|s| (*s, SecM { proven: false, faulty: false, recovering: false, gone: false, faulty_since: None })).collect(),
             ever,
             frozen: false,
+            bad_posts: BTreeMap::new(),
         };
-        if name.ends_with("-aged") {
-            // two proving periods of default behaviour
-            for _ in 0..48 {
+        if name.starts_with("bad-post-closed") {
+            // one proven period, then a bad-proof PoSt in the next window of d0, until it closes
+            let mut bad_done = false;
+            for step in 0..60 {
                 let v = view(vm, cast.m).unwrap();
                 if v.dl_info.open == vm.epoch() {
+                    let parts = Self::default_post_parts(&v);
+                    if !parts.is_empty() {
+                        let bad = step >= 24 && v.dl_info.index == d0;
+                        let r = submit_post(vm, cast.w, cast.m, v.dl_info.index, &parts, bad);
+                        assert!(r.ok(), "SETUP-FAILED PoSt: {}", r.tree());
+                        Self::model_post(&mut m, &v, v.dl_info.index, &parts, vm.epoch());
+                        if bad {
+                            m.bad_posts.insert(v.dl_info.index, v.dl_info.close);
+                        }
+                        bad_done = bad;
+                    }
+                }
+                let pre = view(vm, cast.m).unwrap();
+                let di = pre.dl_info;
+                let r = vm.tick();
+                assert!(r.flat().iter().all(|i| i.ok()), "SETUP-FAILED tick: {}", r.tree());
+                if vm.epoch() - 1 == di.last() && pre.st.deadline_cron_active && di.period_started() {
+                    let post = view(vm, cast.m).unwrap();
+                    self.model_deadline_end(&mut m, &pre, &post, di.index, di.last(), &vm.policy).expect("SETUP-FAILED deadline end in base recipe");
+                    if bad_done && di.index == d0 {
+                        break;
+                    }
+                }
+            }
+            assert!(bad_done, "SETUP-FAILED: no bad PoSt was submitted");
+        }
+        if name.contains("-aged") || name.contains("-faulty") {
+            // two proving periods: the first proven by default; under "-faulty" the second unproven
+            for step in 0..48 {
+                let v = view(vm, cast.m).unwrap();
+                let prove = step < 24 || !name.contains("-faulty");
+                if prove && v.dl_info.open == vm.epoch() {
                     let parts = Self::default_post_parts(&v);
                     if !parts.is_empty() {
                         let r = submit_post(vm, cast.w, cast.m, v.dl_info.index, &parts, false);
@@ -526,11 +585,36 @@ impl Life {
                         Self::model_post(&mut m, &v, v.dl_info.index, &parts, vm.epoch());
                     }
                 }
+                let pre = view(vm, cast.m).unwrap();
+                let di = pre.dl_info;
                 let r = vm.tick();
                 assert!(r.flat().iter().all(|i| i.ok()), "SETUP-FAILED tick: {}", r.tree());
+                if vm.epoch() - 1 == di.last() && pre.st.deadline_cron_active && di.period_started() {
+                    let post = view(vm, cast.m).unwrap();
+                    self.model_deadline_end(&mut m, &pre, &post, di.index, di.last(), &vm.policy).expect("SETUP-FAILED deadline end in base recipe");
+                }
             }
         }
-        m.end = vm.epoch() + self.cfg.periods * 24;
+        if name.ends_with("-f12") {
+            // sectors 1 and 2 declared faulty (they keep their on-time expiration: little life left)
+            let v = view(vm, cast.m).unwrap();
+            let decls = Self::decls(&v, &[1, 2]);
+            let r = declare_faults(vm, cast.w, cast.m, &decls);
+            assert!(r.ok(), "SETUP-FAILED fault declaration: {}", r.tree());
+            for s in [1u64, 2] {
+                let sm = m.sectors.get_mut(&s).unwrap();
+                sm.faulty = true;
+                sm.faulty_since = Some(vm.epoch());
+            }
+        }
+        if name.ends_with("-debt") {
+            // a consensus-fault penalty larger than everything the (poor) miner owns: fee debt
+            let r = report_fault(vm, cast.z, cast.m, vm.epoch() - 1);
+            assert!(r.ok(), "SETUP-FAILED consensus fault report: {}", r.tree());
+            let v = view(vm, cast.m).unwrap();
+            assert!(self.cfg.poor.is_none() || v.st.fee_debt.is_positive(), "SETUP-FAILED: the poor miner should be in fee debt");
+        }
+        m.end = vm.epoch() + self.cfg.horizon.unwrap_or(self.cfg.periods * 24);
         m
     }
 }
@@ -585,10 +669,13 @@ impl Scenario for Life {
             Act::Compact(_) => "compact".into(),
             Act::Onboard { .. } => "onboard".into(),
             Act::DeclareFaultsWrongPartition(_) => "declare-faults(wrong partition)".into(),
+            Act::PreCommit(_) => "pre-commit".into(),
+            Act::ProveCommit(_, bad) => format!("prove-commit bad={bad}"),
             Act::ReportFault => "report-consensus-fault".into(),
             Act::RepayDebt => "repay-debt".into(),
             Act::Withdraw => "withdraw".into(),
             Act::AwardPenalty => "award-with-penalty".into(),
+            Act::TopUp => "top-up".into(),
         }
     }
 
@@ -629,11 +716,24 @@ impl Scenario for Life {
         v.push(Act::Onboard { number: 4, dl_off: 0 });
         v.push(Act::Onboard { number: 4, dl_off: 1 });
         v.push(Act::Onboard { number: 1, dl_off: 0 }); // re-use of a number: must be rejected
+        if self.cfg.precommits {
+            v.push(Act::PreCommit(5));
+            v.push(Act::PreCommit(1)); // number in use
+            let mv = &mv;
+            for n in mv.precommits.keys() {
+                v.push(Act::ProveCommit(*n, false));
+                v.push(Act::ProveCommit(*n, true));
+            }
+        }
         if self.cfg.money_devs {
             v.push(Act::ReportFault);
             v.push(Act::RepayDebt);
             v.push(Act::Withdraw);
-            v.push(Act::AwardPenalty);
+            v.push(Act::TopUp);
+            // only a miner with power can win a block (consensus precondition; DESIGN §3 C05 L)
+            if mv.claim.as_ref().map(|c| c.0 > BigInt::zero()).unwrap_or(false) {
+                v.push(Act::AwardPenalty);
+            }
         }
         v
     }
@@ -687,6 +787,9 @@ impl Scenario for Life {
                 }
                 let pre = view(vm, c.m).unwrap();
                 let r = vm.tick();
+                if std::env::var("MC_DEBUG_TICK").ok().and_then(|e| e.parse::<i64>().ok()) == Some(now) {
+                    eprintln!("TICK at {now}:\n{}", r.tree());
+                }
                 // C05: the tick and everything beneath it succeeds
                 if self.cfg.oracles.c05 {
                     for i in r.flat() {
@@ -741,6 +844,11 @@ impl Scenario for Life {
                 }
                 if r.ok() {
                     Self::model_post(&mut m, &before, di.index, &parts, now);
+                    if *badproof {
+                        m.bad_posts.insert(di.index, di.close);
+                    } else {
+                        m.bad_posts.remove(&di.index);
+                    }
                     if di.open == now {
                         m.suppressed = Some(now); // this PoSt replaces the default one
                     }
@@ -868,6 +976,17 @@ impl Scenario for Life {
                 if let Some(e) = self.pen("PoSt dispute", &before, vm, &r, Some(c.z), &ch) {
                     bad!(e);
                 }
+                // a PoSt with an invalid proof must be disputable during its dispute window
+                if let Some(close) = m.bad_posts.get(d).cloned() {
+                    let in_window = now >= close && now < close + vm.policy.wpost_dispute_window && di.index != *d;
+                    let recorded = before.dls[*d as usize].optimistic_posts_snapshot > 0;
+                    if in_window && recorded && faults.is_empty() && !r.ok() && (self.cfg.oracles.c15 || self.cfg.oracles.c02) {
+                        bad!(format!("dispute of the invalid PoSt of deadline {d} (window closed at {close}) was rejected at epoch {now}: {}", r.tree()));
+                    }
+                    if r.ok() || now >= close + vm.policy.wpost_dispute_window {
+                        m.bad_posts.remove(d);
+                    }
+                }
                 if r.ok() {
                     // a successful dispute faults every sector the disputed proof vouched for
                     let after = view(vm, c.m).unwrap();
@@ -930,6 +1049,50 @@ impl Scenario for Life {
                     outcome = "accepted";
                 } else {
                     outcome = "rejected";
+                }
+            }
+            Act::PreCommit(number) => {
+                let exp = min_precommit_expiration(&vm.policy, now) + 10;
+                let r = precommit(vm, c.w, c.m, *number, exp);
+                if let Err(e) = all_ok(&r) {
+                    bad!(e);
+                }
+                if let Some(e) = self.pen("pre-commit", &before, vm, &r, None, &TokenAmount::zero()) {
+                    bad!(e);
+                }
+                if r.ok() {
+                    if m.ever.contains(number) {
+                        bad!(format!("sector number {number} was pre-committed although already used"));
+                    }
+                    m.ever.insert(*number);
+                    let post = view(vm, c.m).unwrap();
+                    if post.st.fee_debt.is_positive() {
+                        bad!("pre-commit accepted while fee debt stays unpaid".to_string());
+                    }
+                    accepted_dev = true;
+                    outcome = "accepted";
+                } else {
+                    outcome = "rejected";
+                }
+            }
+            Act::ProveCommit(number, badproof) => {
+                let r = prove_commit3(vm, c.w, c.m, &[*number], *badproof);
+                if let Err(e) = all_ok(&r) {
+                    bad!(e);
+                }
+                if let Some(e) = self.pen("prove-commit", &before, vm, &r, None, &TokenAmount::zero()) {
+                    bad!(e);
+                }
+                let post = view(vm, c.m).unwrap();
+                if post.sectors.contains_key(number) && !before.sectors.contains_key(number) {
+                    if *badproof {
+                        bad!(format!("sector {number} was activated with an invalid proof"));
+                    }
+                    m.sectors.insert(*number, SecM { proven: false, faulty: false, recovering: false, gone: false, faulty_since: None });
+                    accepted_dev = true;
+                    outcome = "activated";
+                } else {
+                    outcome = if r.ok() { "not activated" } else { "rejected" };
                 }
             }
             Act::ReportFault => {
@@ -996,6 +1159,14 @@ impl Scenario for Life {
                 } else {
                     outcome = "rejected";
                 }
+            }
+            Act::TopUp => {
+                let r = ext(vm, c.o, &id(c.m), &TokenAmount::from_nano(1_000_000), 0, NOP);
+                if let Some(e) = self.pen("top-up", &before, vm, &r, None, &TokenAmount::zero()) {
+                    bad!(e);
+                }
+                accepted_dev = r.ok();
+                outcome = if r.ok() { "accepted" } else { "rejected" };
             }
             Act::AwardPenalty => {
                 let gas_penalty = TokenAmount::from_nano(5);
